@@ -8,7 +8,6 @@ import (
 	"github.com/jig/lisp/debuggertypes"
 	"github.com/jig/lisp/env"
 	"github.com/jig/lisp/lib/call"
-	"github.com/jig/lisp/lib/core/nscore"
 	. "github.com/jig/lisp/types"
 	"verif.example/h/c01"
 	"verif.example/h/c03"
@@ -25,10 +24,7 @@ var (
 func trace_BANG(v MalType) (MalType, error) { Trace = append(Trace, v); return v, nil }
 
 func Setup() {
-	Base = env.NewEnv()
-	if err := nscore.Load(Base); err != nil {
-		panic(err)
-	}
+	Base = lib.StdEnv()
 	call.CallOverrideFN(Base, "trace!", trace_BANG)
 	c03.RegisterBuiltins(Base)
 	if _, err := lisp.REPL(context.Background(), Base, c03.Prelude, nil); err != nil {
